@@ -2930,5 +2930,33 @@ def optimize_graph(ir_model: ir.Model) -> ir.Model:
         fgr = cast(ir.Graph, graph_obj)
         for opt_pass in _OPTIMIZER_PASSES:
             _run_function_optimizer_pass(opt_pass, fgr)
+        _ensure_function_outputs_have_producers(fgr)
 
     return ir_model
+
+
+def _ensure_function_outputs_have_producers(graph: ir.Graph) -> None:
+    """Give every function output a producing node of its own.
+
+    The folds re-route graph outputs (``replace_graph_outputs=True``): when an
+    inverse Reshape / Transpose / Cast pair spans a whole function body the output
+    becomes the function's input itself (or one value ends up at two output
+    positions).  ONNX Runtime refuses to load such a function.
+    """
+    taken = {id(v) for v in graph.inputs}
+    for index, out in enumerate(list(graph.outputs)):
+        if out is None:
+            continue
+        if id(out) not in taken:
+            taken.add(id(out))
+            continue
+        fresh = ir.Value(
+            name=f"{out.name or 'value'}_out{index}",
+            shape=out.shape,
+            type=out.type,
+        )
+        graph.append(
+            ir.Node("", "Identity", inputs=[out], outputs=[fresh], name=None)
+        )
+        graph.outputs[index] = fresh
+        taken.add(id(fresh))
